@@ -35,7 +35,15 @@ Definition mon_ers (sn : ers_snapshot) (obs : ers_obs) : list N :=
               (* sticky: failed before => failed after, whatever the pods and annotations *)
               code_if (negb (canary_failed_rs read) || failed_obs) 12 ++
               (* no further canary pod while paused or failed *)
-              code_if (negb (failed_obs || paused_obs) || no_creates obs) 13
+              code_if (negb (failed_obs || paused_obs) || no_creates obs) 13 ++
+              (* "the span between the first and the latest observed restart" / "since the last canary pod restart": the
+                 latest observed restart (lastUpdateTime of PodRestarting) never moves backwards, and the first one
+                 (lastTransitionTime) is kept once recorded *)
+              code_if (match get_cond (rs_conds read) CT_PodRestarting, get_cond (rs_conds after) CT_PodRestarting with
+                       | Some before, Some aft => (c_update before <=? c_update aft) &&
+                                                  (negb (cstatus_eqb (c_status before) CTrue) || (c_trans before =? c_trans aft))
+                       | Some _, None => false
+                       | None, _ => true end) 14
           end
       | _, _ => []
       end
